@@ -73,7 +73,7 @@ Theorem C11_L0_every_call_obeys_call_parentheses : forall c p,
 Proof. exact Fmt0Proof.format0_calls_obey_the_option. Qed.
 Print Assumptions C11_L0_every_call_obeys_call_parentheses.
 (* under Input the call-form pass prints every expression exactly as it would have been printed without it *)
-Theorem C11_L0_input_keeps_every_call : forall c e o, Fmt0.pexp c (Fmt0.cexp CallForm.Input o e) = Fmt0.pexp c e.
+Theorem C11_L0_input_keeps_every_call : forall c e o d, Fmt0.pexp c d (Fmt0.cexp CallForm.Input o e) = Fmt0.pexp c d e.
 Proof. exact Fmt0Proof.cexp_input_prints_the_same. Qed.
 Print Assumptions C11_L0_input_keeps_every_call.
 (* the checker is not vacuous: it rejects `f("s")` under None, `f "s"` under Always, `f "s".x` under None *)
